@@ -26,6 +26,104 @@ CHECKS = {
         "Python's ==/in/any/frozenset. Not decided: runtime enumeration of all "
         "720 x parity pairs (another family).",
         "DESIGN.md 3/C04"),
+    "C01": (
+        "side-kind inference + mirrored-statement cross-check on VF2++, "
+        "symmetric-call / label-flow rules on __eq__, empty-graph guards, "
+        "orbit tables (C04), aggregation-order rules (C03)",
+        "Static necessary conditions of 'never misses': every index / "
+        "membership / update site of the nine full-graph VF2++ functions "
+        "uses an atom of the right graph; the two graphs are handled by "
+        "mirrored statements; the four __eq__ call the search symmetrically "
+        "with their own refinement labels and guard empty graphs; descriptor "
+        "equality is orbit membership over proven rotation groups; colours "
+        "are aggregated order-free; relabel_atoms rebuilds every container.",
+        "Not decided: that the search finds an isomorphism whenever one "
+        "exists. Trusted: side seeds (record field names, (u, v, state, "
+        "params) protocol).",
+        "DESIGN.md 3/C01"),
+    "C02": (
+        "class-guard symmetry, own-colour dependency, label flow, "
+        "candidate-filter polarity, placeholder-aware stereo predicates, "
+        "bond-role predicate shape, paired search state",
+        "Static necessary conditions of 'never lies': symmetric class guard "
+        "in all four __eq__; the Morgan update depends on the atom's own "
+        "colour; labels come from the class's refiner seeded with atom_type; "
+        "candidates are intersections over all covered neighbours with "
+        "correct polarity; stereo / stereo-change / bond-role predicates "
+        "compare the mapped items of u with those of v and are registered "
+        "for the right flags.",
+        "Not decided: soundness of the pruning as an algorithm; brute-force "
+        "agreement on small graphs is another family.",
+        "DESIGN.md 3/C02"),
+    "C03": (
+        "aggregation-order analysis by axis provenance (def-use), call-graph "
+        "purity below __hash__, descriptor hash form (C04)",
+        "Every colour aggregation call site is classified by the provenance "
+        "of its last axis and must use the multiset hash on unordered axes "
+        "and the tuple hash on ordered ones; identifiers never enter hashed "
+        "data; parity -1 is normalised in both descriptor loops; the stop "
+        "criterion is renaming-invariant; nothing below __hash__ uses "
+        "process-salted hashing; descriptor __hash__ has the orbit form.",
+        "Not decided: equality => equal hash as a behaviour; sampled "
+        "PYTHONHASHSEED runs (another family). Trusted: provenance "
+        "classification table in sa/hashrules.py.",
+        "DESIGN.md 3/C03"),
+    "C05": (
+        "path rules on the explicit-stack search loop, freshness of yields "
+        "and candidate sets, side kinds, mirror cross-check, label types",
+        "All syntactic paths through the search loop take exactly one of "
+        "{undo pair, yield + undo pair, update_state + push}; mapping and "
+        "inverted_mapping are mutated in mirrored adjacent pairs; yields "
+        "and candidate sets are fresh; candidate filters have the right "
+        "polarity and cover all covered neighbours; every call site passes "
+        "label dictionaries.",
+        "Not decided: exactness of the enumeration (no missing / duplicate "
+        "mapping) as an algorithmic fact; group closure of the result.",
+        "DESIGN.md 3/C05"),
+    "C06": (
+        "slot-coverage analysis of the resolved enantiomer() chain + "
+        "invert()/inversion table obligations + effect analysis",
+        "For both stereo classes every descriptor-bearing slot (incl. all "
+        "three roles of both change dictionaries) receives invert()-ed "
+        "values read from the same slot of self, nothing else is written to "
+        "the copy, self is not written; invert() negates the parity for "
+        "chiral classes and returns self otherwise; inversion tables are "
+        "improper operations.",
+        "Not decided: g == g.enantiomer() exactly for achiral / meso "
+        "structures (needs search completeness).",
+        "DESIGN.md 3/C06"),
+    "C11": (
+        "identifier-flow typing of the relabel_atoms chain + slot coverage "
+        "and in-place contract by abstract interpretation",
+        "Every atom identifier drawn from self's containers passes through "
+        "the total renaming mapping.get(x, x); every slot is rebuilt from "
+        "the same slot of self with containers of the declared class; "
+        "copy=False returns self and rebinds every slot, copy=True returns "
+        "a new object and leaves self untouched.",
+        "Not decided: that the inverse mapping restores the graph as a "
+        "value (follows from the uniform renaming for injective maps).",
+        "DESIGN.md 3/C11"),
+    "C16": (
+        "own-colour dependency, ordered role axis, parity normalisation, "
+        "first-trip def-use of the bond-stereo contribution",
+        "Necessary conditions of separation checked on the generators: own "
+        "colour enters every update; the (reactant, product, TS) axis is "
+        "hashed in order; parity -1 is normalised; the bond-stereo "
+        "contribution must be computed from real colours on the first trip "
+        "(violated today: known finding F13, E/Z hash collision).",
+        "Not decided: collision-freeness as such.",
+        "DESIGN.md 3/C16"),
+    "C17": (
+        "one-shot typestate of Iterable parameters, slot coverage of "
+        "subgraph/compose chains, filter-shape rules, component-search shape",
+        "Iterable parameters are consumed once on every path; every slot of "
+        "every class is filled from the same slot of the source; bonds / "
+        "neighbours / descriptors / changes are kept under universal "
+        "membership with None-aware tests; compose merges neighbour sets; "
+        "the component search has the work-list shape.",
+        "Not decided: maximality of components; value equality of the "
+        "recomposed graph.",
+        "DESIGN.md 3/C17"),
     "C09": (
         "effect analysis by abstract interpretation of every reader x class "
         "+ paired-update / purge / key-centre rules on the mutators",
